@@ -83,6 +83,11 @@ CLAIMED = {
             "every content read at open and a mismatch is an error; fast-field codec tables inverse and exhaustive; every file read on "
             "the open path is integrity-checked first (manifest: known finding); pre-verification parsers have no unreasoned panic source",
             "5/C17"),
+    "C19": ("container-aware value flow of hit indices from the window enumeration, provenance of the re-sort range, per-arm operation table of the score modes",
+            "three clauses: every index used to modify or drop a hit is an enumeration of hits.iter().take(window) with window "
+            "bounded by window_size; the re-sorted prefix is that window minus the dropped hits (never a length taken after a "
+            "removal); Total/Sum add, Multiply multiplies, Max/Min take max/min of (original, rescore) and the call passes (mode, "
+            "original score, rescore score). Scores and the order inside the window are runtime results and NOT decided", "5/C19"),
     "C20": ("type-based non-interference of the profile flag (control-dependence regions with an effect whitelist), read/write discipline of QueryStats",
             "`profile` half: the flag is read only by the search entry functions, branches on it and on the optional stats handle "
             "control only profiling state, counters are write-only outside to_execution_profile; explain: final_score is synchronised "
@@ -115,7 +120,6 @@ CLAIMED = {
 
 NA = {
     "C18": "group representatives and inner-hit windows are ordering properties of runtime hit lists",
-    "C19": "'only the first window_size hits change' is an index-range property of runtime vectors",
     "C22": "determinism and doc-frequency equality of suggestions depend on dictionary contents and a runtime scan cap",
     "C27": "quantifies over orderings of browser tasks / IndexedDB completions and the module is cfg(target_arch=\"wasm32\"): no wasm32 target is installed, so the code cannot be type-checked here",
     "C29": "similarity values, blending and nearest-neighbour exactness are numerical / algorithmic; the feature is outside the pinned build",
